@@ -424,7 +424,8 @@ def write_evidence(mod, pid, tier, seed, results, skipped, discharged, violation
     samples = []
     for r in results:
         res = r.get("result") or {}
-        for s in (res.get("samples") or [])[:2]:
+        best = sorted(res.get("samples") or [], key=lambda x: -(x.get("choices") or 0))[:2]  # the deepest witnesses of the case
+        for s in best:
             samples.append({"case": r["name"], "args": s["args"], "verdict": s["verdict"], "branch_decisions": s.get("choices")})
         if len(samples) >= 24:
             break
